@@ -15,7 +15,8 @@ LEVEL = "exploration"
 RULE = (
     "case = random DAG (<=7 stages, AND / N_OF_M / DISCRIMINATOR joins, failing / failed-continue / skipped / polling "
     "stages) or OR-split/OR-join variant or library shape, x delivery schedules (random order, withheld acks) with "
-    "early / late / duplicate StartStage messages injected for random stages at random steps. For every durable "
+    "early / late / duplicate StartStage messages injected for random stages at random steps, and operator restarts of "
+    "random (usually finished) stages - on the join shapes enumerated: a restart of every upstream before every step. For every durable "
     "NOT_STARTED->RUNNING row the join predicate is evaluated on the durable upstream statuses at that row's sequence "
     "number. Non-trivial = a stage start with >=1 upstream; distinct = (join type, sorted upstream status vector, "
     "was an injected StartStage pending). The same monitor runs over whole workflows executed by 2-4 worker threads "
@@ -23,7 +24,7 @@ RULE = (
     "re-arms the stage being started or its upstreams) under every schedule with <= 2 preemptions (sampled)."
 )
 ASSUMPTIONS = ["SQLite backend", "jump targets are exempt exactly when a JumpToStage naming them re-armed them in the same commit group"]
-MIN_OBS = {"starts_checked": {"quick": 2000, "thorough": 20000}, "injected_start_messages": {"quick": 500, "thorough": 5000}, "interleaved_runs": {"quick": 60, "thorough": 800}, "start_x_jump_schedules_with_switch": {"quick": 100, "thorough": 1500}}
+MIN_OBS = {"starts_checked": {"quick": 2000, "thorough": 20000}, "injected_start_messages": {"quick": 500, "thorough": 5000}, "interleaved_runs": {"quick": 60, "thorough": 800}, "start_x_jump_schedules_with_switch": {"quick": 100, "thorough": 1500}, "restart_injections": {"quick": 300, "thorough": 1500}}
 TIMEOUT = {"quick": 600, "thorough": 3000}
 
 
@@ -48,6 +49,9 @@ def gen_cases(tier: str, seed: int) -> list[dict]:
     for sp in range(4):
         for nth in range(2):
             cases.append({"kind": "pair", "spec": sp, "nth": nth, "seed": seed, "sample": 120 if tier == "quick" else 1500})
+    for sp in range(len(RESTART_SPECS)):
+        for order in (("fifo",) if tier == "quick" else ("fifo", "random", "lifo")):
+            cases.append({"kind": "restart", "spec": sp, "order": order, "seed": seed})
     return cases
 
 
@@ -164,6 +168,41 @@ def _race(case: dict) -> dict:
     return {"violations": v[:10], "obs": dict(obs), "keys": sorted("race:" + x for x in k)}
 
 
+RESTART_SPECS = [lambda: specs.quorum(3, 2), lambda: specs.quorum(4, 3), lambda: specs.first_of(3), lambda: specs.diamond(), lambda: specs.first_of_failing(random.Random(5)), lambda: specs.or_split()]
+
+
+def _restart(case: dict) -> dict:
+    """Operator restart of an upstream of a join, enumerated: before EVERY delivery step of the reference
+    run, for EVERY stage that has a downstream - a restarted upstream is RUNNING again and must not count
+    towards a join that has not fired yet."""
+    spec = RESTART_SPECS[case["spec"]]()
+    rng = random.Random(case["seed"] * 131 + case["spec"])
+    ref = delivery_run(spec)
+    ups = sorted({u for s_ in spec["stages"] for u in (s_.get("req") or [])})
+    obs: Counter = Counter()
+    keys: set = set()
+    violations = []
+    for step in range(1, ref.steps + 1):
+        for u in ups:
+            run = delivery_run(spec, seed=rng.randrange(1 << 30), order=case["order"], injections=[{"at": step, "do": "restart_stage", "ref": u}], max_steps=ref.steps * 6 + 150)
+            obs["evaluations"] += 1
+            obs["restart_injections"] += 1
+            v, o, k = start_oracle(spec, run)
+            v = oracles.attribute(v, run, "C03")
+            obs.update(o)
+            keys |= {"restart:" + x for x in k}
+            for x in v:
+                x.update(restart_of=u, before_step=step, order=case["order"])
+            violations += v
+    seen_s = set()
+    uniq = []
+    for x in violations:
+        if x["sig"] not in seen_s:
+            seen_s.add(x["sig"])
+            uniq.append(x)
+    return {"violations": uniq, "obs": dict(obs), "keys": sorted(keys)}
+
+
 PAIR_SPECS = [lambda: specs.jump_from_sibling(1), lambda: specs.jump_from_sibling(2), lambda: specs.jump_side_branch(1), lambda: specs.jump_fanin_off_body(1)]
 
 
@@ -245,6 +284,8 @@ def run_case(case: dict) -> dict:
         return _race(case)
     if case.get("kind") == "pair":
         return _pair(case)
+    if case.get("kind") == "restart":
+        return _restart(case)
     spec = _spec_for(case["spec_i"], case["seed"])
     rng = random.Random(case["seed"] * 31 + case["spec_i"])
     obs: Counter = Counter()
@@ -258,6 +299,11 @@ def run_case(case: dict) -> dict:
         inj = []
         for _ in range(rng.randint(1, 4)):
             inj.append({"at": rng.randrange(0, max(2, ref.steps + 5)), "do": "early_start", "ref": rng.choice(refs)})
+        if j % 3 == 2:
+            # operator restart of a (probably finished) stage while its siblings / downstream joins are still
+            # deciding: a restarted upstream is no longer "finished" for any join that has not fired yet
+            inj.append({"at": rng.randrange(2, max(3, ref.steps)), "do": "restart_stage", "ref": rng.choice(refs)})
+            obs["restart_injections"] += 1
         run = delivery_run(spec, seed=rng.randrange(1 << 30), order=rng.choice(["random", "random", "lifo", "fifo"]), noack_p=rng.choice([0.0, 0.15, 0.3]), injections=inj, max_steps=budget)
         obs["evaluations"] += 1
         obs["injected_start_messages"] += len(run.injected)
